@@ -180,22 +180,31 @@ def run_cases(cases, tag, shard=250, workers=8, model=True):
     # str() of non-string values: the fixed palette plus every node of the fuzz inputs (cattrs coerces with str() wherever `str` is expected)
     str_of, seen = list(STR_OF), {json.dumps(v, sort_keys=True) for v in STR_OF}
 
+    capped = [False]
+
     def nodes(v):
         if isinstance(v, str):
             return
         k = json.dumps(v, sort_keys=True)
-        if k not in seen and len(seen) < 6000:
-            seen.add(k)
-            str_of.append(v)
+        if k not in seen:
+            if len(seen) < 12000:
+                seen.add(k)
+                str_of.append(v)
+            else:
+                capped[0] = True        # the str() table is full: this input cannot be run through the model (its str() oracle is missing)
         if isinstance(v, list):
             for x in v:
                 nodes(x)
         elif isinstance(v, dict):
             for x in v.values():
                 nodes(x)
-    for c in cases:
+    no_model = set()
+    for i, c in enumerate(cases):
         if c.get("kind") == "hook-fuzz":
+            capped[0] = False
             nodes(c["input"])
+            if capped[0]:
+                no_model.add(i)
     real = real_run(cases, str_of)
     merge_foreign_history(cases, real["results"], lambda cfg: real_run(cases, str_of, cfg=cfg)["results"])
     if not model:
@@ -234,6 +243,8 @@ def run_cases(cases, tag, shard=250, workers=8, model=True):
         body = r.out.split(": list (nat * nat)")[0]
         for a, b_ in re.findall(r"\(\s*(\d+)\s*,\s*(\d+)\s*\)", body):
             verdict[int(a)] = int(b_)
+    for i in no_model:
+        verdict[i] = 0           # not comparable: the model's str() oracle table was full (the real result is still judged by the caller)
     return verdict, real["results"]
 
 
